@@ -33,6 +33,18 @@ CLAIMED = {
          "Decides the per-operation atomic protocol and that a destructively read delta is written or proven zero on every path; multi-word races of AtomicCounter are residue."),
  "C11": ("ownership of the taken buffer on every connection-keeping exit of drive_connection (reachability cut at restore sites), parked-value provenance, decrement gating, must-wake-after-send, capacity constant range, name-preserving operation tables",
          "Decides on every path that an unwritten buffer is parked again, that clients are counted out only when removed, and that every enqueue wakes the transport; mio behaviour and liveness are residue."),
+ "C15": ("sibling agreement of the bound comparison operator in record/record_many, loop-shape rules (every bound / first bound + cumulative pass), ADT variant-order + derive facts, sort comparator and first-match dominance, expiry-predicate agreement between add and snapshot, bucket-membership gates",
+         "Decides the structural meaning of buckets and windows (operator, order, precedence, predicates); sketch accuracy and numeric edge behaviour are residue."),
+ "C16": ("value-range/provenance of the RNG bound (pre-increment count + 1), fill/replace gate table, drain clamp, reset-on-drop must-pass-through, active-side table agreement between push and consume, swap-under-mutex dominance",
+         "Decides Algorithm R's necessary bound and the bookkeeping identities on every path; the statistical claim and push-during-drain races are residue."),
+ "C17": ("merge-function table (non-overwriting for parent inheritance, overwriting for record), registered-parent provenance, per-type formatting of Visit methods, filter-argument provenance and filter-before-extend dominance in enhance_key, recorder forwarding",
+         "Decides on every path which label source wins and what the filter sees; tracing's own span bookkeeping is trusted."),
+ "C18": ("typed-HIR gate rule on the async request handler (render only under exactly `if is_allowed`, 403+empty body otherwise), fail-closed table of check_tcp_allowed, loop-exit-freedom of the accept loops, spawn-per-connection, parser table of add_allowed_address vs its documentation",
+         "Decides the allowlist gate and isolation structurally for all requests/peers; hyper/tokio behaviour under malformed input is trusted."),
+ "C19": ("unconditional track-then-create per registration (must-pass-through, kind-consistency, sibling isomorphism), who-may-touch on seen/metadata, per-kind arm table of snapshot, accumulate-not-overwrite rule for the histogram drain closure, unit/description update table; local-over-global precedence imported from C01",
+         "Decides which metrics a snapshot lists and from where each value is read on every path; values under concurrent updates rest on C04/C05."),
+ "C20": ("upgrade-guarded forwarding (Some-edge gate, receiver provenance through the upgraded Arc, Arc liveness across the call), try_unwrap retry-loop shape, field-type ownership facts, no count-peeking / no unsafe who-may-call rules",
+         "Decides that the wrapped recorder is entered only under a live strong reference and recovered only through try_unwrap; termination of the retry loop is residue."),
 }
 checks = []
 for p in props:
